@@ -2,7 +2,11 @@
 
 Independent readers (readers/raster.py: PNG with CRC/zlib/filters/PLTE/tRNS, PBM P1/P4, PAM, PPM, XBM, XPM; text readers
 below) reduce each file to a pixel grid; every pixel is compared with the module it must depict."""
+import contextlib
 import io
+import os
+import shutil
+import tempfile
 import re
 
 from qrref import tables as T
@@ -76,6 +80,10 @@ def gen_cases(tier):
             yield ('fmt', v, kind, tier)
         yield ('text', v)
     yield ('alias',)
+    # the other routes to the same file: file name with the extension in lower / upper / mixed case, a one-symbol sequence, the command line tool
+    for v in ('M2', 'M4', 1, 2) if tier == 'quick' else ('M1', 'M2', 'M3', 'M4', 1, 2, 7):
+        for kind in COLORS:
+            yield ('routes', v, kind)
     for i in range(0, len(Co.NAMED), 10):
         yield ('names', i)
 
@@ -85,8 +93,58 @@ def module_at(m, size, s, b, x, y):
     return 1 if (0 <= i < size and 0 <= j < size and m[i][j]) else 0
 
 
-def one(v, kind, kw, dark, light, scale, border, acc):
-    case = ('one', v, kind, kw, dark, light, scale, border)
+def symbol_argv(v):
+    """command line that creates the same symbol as symbol(v)"""
+    lvl = T.levels_of(v)[0]
+    n = max(1, C.max_count('numeric', v, lvl) * 2 // 3)
+    argv = ['--version', str(v), '--mode', 'numeric', '--no-error-boost', '--pattern', str((T.ORDER.index(v) + 1) % (4 if T.is_micro(v) else 8))]
+    if lvl is not None:
+        argv += ['--error', lvl]
+    return argv, C.content_of('numeric', n, 1)
+
+
+def produce(qr, v, kind, args, route):
+    """the file for (symbol, kind, options) through one of the routes a user has: stream, file name (extension in any letter
+    case), a one-symbol sequence, the command line tool"""
+    binary = kind in READ
+    if route == 'stream':
+        out = io.BytesIO() if binary else io.StringIO()
+        qr.save(out, kind=kind, **args)
+        return out.getvalue()
+    tmp = tempfile.mkdtemp(prefix='verif-c09-')
+    try:
+        ext = {'lower': kind, 'upper': kind.upper(), 'mixed': kind.capitalize()}[route.split(':')[1]]
+        path = os.path.join(tmp, 'Out.' + ext)
+        if route.startswith('path:'):
+            qr.save(path, **args)
+        elif route.startswith('seq:'):
+            seq = segno.make_sequence(symbol_argv(v)[1], version=v, error=T.levels_of(v)[0], mode='numeric', boost_error=False, mask=qr.mask)
+            if len(seq) != 1 or seq[0].matrix != qr.matrix:
+                raise AssertionError('make_sequence gives another symbol')
+            seq.save(path, **args)
+        elif route.startswith('cli:'):
+            from segno import cli
+            argv, content = symbol_argv(v)
+            for k, val in args.items():
+                flag = {'scale': '--scale', 'border': '--border', 'dark': '--dark', 'light': '--light', 'dpi': '--dpi'}[k]
+                argv += [flag, 'transparent' if val is None else str(val)]
+            with contextlib.redirect_stdout(io.StringIO()), contextlib.redirect_stderr(io.StringIO()) as err:
+                try:
+                    rc = cli.main(argv + ['--output', path, content])
+                except SystemExit as e:
+                    raise ValueError('command line tool refused: %s %s' % (e.code, err.getvalue()[-80:]))
+            if rc != 0:
+                raise ValueError('command line tool returned %r' % rc)
+        else:
+            raise AssertionError(route)
+        data = open(path, 'rb').read()
+        return data if binary else data.decode('utf-8')
+    finally:
+        shutil.rmtree(tmp, ignore_errors=True)
+
+
+def one(v, kind, kw, dark, light, scale, border, acc, route='stream'):
+    case = ('one', v, kind, kw, dark, light, scale, border) + ((route,) if route != 'stream' else ())
     qr = symbol(v)
     size = T.size_of(v)
     m = qr.matrix
@@ -94,10 +152,11 @@ def one(v, kind, kw, dark, light, scale, border, acc):
     args['scale'] = scale
     if border is not None:
         args['border'] = border
-    out = io.BytesIO() if kind in READ else io.StringIO()
     try:
-        qr.save(out, kind=kind, **args)
+        data = produce(qr, v, kind, args, route)
         exc = None
+    except AssertionError:
+        raise
     except Exception as e:
         exc = e
     s = int(scale)
@@ -116,7 +175,6 @@ def one(v, kind, kw, dark, light, scale, border, acc):
         acc.eval(case, nontrivial=False, outcome='exc:' + C.exc_name(exc))
         acc.violation('exception/%s/%s' % (kind, C.exc_name(exc)), 'save(kind=%r, **%r) raised %s: %s' % (kind, args, C.exc_name(exc), str(exc)[:80]), case)
         return
-    data = out.getvalue()
     try:
         if kind in READ:
             w, h, px, info = READ[kind](data)
@@ -135,7 +193,7 @@ def one(v, kind, kw, dark, light, scale, border, acc):
         acc.add('png_types', (info['ctype'], info['depth']))
     if kind == 'pam':
         acc.add('pam_types', info['tupltype'])
-    state = (kind, v, scale, border, tuple(sorted(kw)))
+    state = (kind, v, scale, border, tuple(sorted(kw)), route)
     if (w, h) != (exp, exp):
         acc.eval(case, nontrivial=True, outcome='size', state=state)
         acc.violation('size/' + fam, '%s image is %dx%d, expected %dx%d  [scale=%r border=%r]' % (kind, w, h, exp, exp, scale, border), case)
@@ -216,11 +274,34 @@ def text_outputs(v, acc):
         bb = (2 if T.is_micro(v) else 4) if border is None else border
         n = size + 2 * bb
         want = [[module_at(m, size, 1, bb, x, y) for x in range(n)] for y in range(n)]
-        for name in ('txt', 'txt-chars', 'ans', 'terminal', 'compact'):
+        names = ('txt', 'txt-chars', 'ans', 'terminal', 'compact')
+        if size <= 29:
+            names += ('cli-terminal', 'cli-compact') + (() if T.is_micro(v) else ('seq-terminal', 'seq-compact', 'cli-seq-terminal', 'cli-seq-compact'))
+        for name in names:
             case = ('text1', v, border, name)
             out = io.StringIO()
             try:
-                if name == 'txt':
+                if name.startswith('seq-'):
+                    seq = segno.make_sequence(symbol_argv(v)[1], version=v, error=T.levels_of(v)[0], mode='numeric', boost_error=False, mask=qr.mask)
+                    if len(seq) != 1 or seq[0].matrix != m:
+                        raise AssertionError('make_sequence gives another symbol')
+                    seq.terminal(out=out, border=border, compact=name.endswith('compact'))
+                    got = parse_compact(out.getvalue(), n) if name.endswith('compact') else parse_ansi(out.getvalue())
+                elif name.startswith('cli-'):
+                    from segno import cli
+                    argv, content = symbol_argv(v)
+                    if '-seq-' in name:
+                        argv.append('--seq')
+                    if border is not None:
+                        argv += ['--border', str(border)]
+                    if name.endswith('compact'):
+                        argv.append('--compact')
+                    with contextlib.redirect_stdout(out):
+                        rc = cli.main(argv + [content])
+                    if rc != 0:
+                        raise R.Malformed('command line tool returned %r' % rc)
+                    got = parse_compact(out.getvalue(), n) if name.endswith('compact') else parse_ansi(out.getvalue())
+                elif name == 'txt':
                     qr.save(out, kind='txt', border=border)
                     got = [[int(ch) for ch in ln] for ln in out.getvalue().split('\n')[:-1]]
                     if not re.fullmatch(r'(?:[01]+\n)+', out.getvalue()):
@@ -304,9 +385,23 @@ def run_case(case, acc):
                         k2 = dict(kw)
                         k2.update(extra)
                         one(v, fmt, k2, dark, light, scale, border, acc)
+    elif kind == 'routes':
+        v, fmt = case[1], case[2]
+        for ci, (kw, dark, light) in enumerate(COLORS[fmt]):
+            if any(not isinstance(x, (str, type(None))) for x in kw.values()) or set(kw) - {'dark', 'light'}:
+                continue          # (tuples cannot be written on a command line)
+            if ci >= 3:
+                break
+            for r in ('path', 'seq', 'cli'):
+                for cs in ('lower', 'upper', 'mixed'):
+                    if r == 'seq' and (cs != 'lower' or T.is_micro(v)):
+                        continue
+                    for scale, border in ((1, None), (3, 1), (2, 0)):
+                        one(v, fmt, dict(kw), dark, light, scale, border, acc, route='%s:%s' % (r, cs))
+                        acc.count('route_files')
     elif kind == 'one':
-        _, v, fmt, kw, dark, light, scale, border = case
-        one(v, fmt, dict(kw), dark, light, scale, border, acc)
+        v, fmt, kw, dark, light, scale, border = case[1:8]
+        one(v, fmt, dict(kw), dark, light, scale, border, acc, route=case[8] if len(case) > 8 else 'stream')
     elif kind == 'text':
         text_outputs(case[1], acc)
     elif kind == 'text1':
